@@ -68,6 +68,7 @@ TRANSLATORS = [
     ('translate_read.py', 'ReadTables', 'read', 'Proofs/ReadSrc.v'),
     ('translate_esc.py', 'EscTables', 'esc', 'Proofs/EscSrc.v'),
     ('translate_strscan.py', 'StrScanTables', 'strscan', 'Proofs/StrScanSrc.v'),
+    ('translate_lexalg.py', 'LexAlgTables', 'lexalg', 'Proofs/LexAlgSrc.v'),
 ]
 TRANSLATORS = [t for t in TRANSLATORS if os.path.exists(os.path.join(VERIF, 'tools', t[0]))]
 
